@@ -48,7 +48,10 @@ Apply(o, t) ==
                              IN IF "stream" \in DOMAIN t /\ t.id \in Ev /\ o.meta[t.id].stream # "" /\ t.stream # o.meta[t.id].stream
                                   THEN [o1 EXCEPT !.viol = @ \cup {V("commit_in_foreign_stream", t.id, 0, t.by, t.stream)}]
                                   ELSE o1
-    [] t.ev = "End"       -> IF t.idle THEN OEnd(o, t.inuse, t.waiters)
+    [] t.ev = "End"       -> IF t.idle THEN (IF "stophung" \in DOMAIN t /\ t.stophung
+                                                \* everything was accounted for, yet Stop never returned: an output worker still waits for a commit turn
+                                                THEN [OEnd(o, t.inuse, t.waiters) EXCEPT !.viol = @ \cup {V("stop_never_returns", 0, 0, "end", "")}]
+                                                ELSE OEnd(o, t.inuse, t.waiters))
                              \* no idle state within the (generous) bound after the last input: a wedge (C04); events still
                              \* held by then are events the pool never got back (C05: in-use returns to zero when the pipeline goes quiet)
                              ELSE [o EXCEPT !.viol = @ \cup {V("not_idle", 0, 0, "end", "")}
